@@ -1,3 +1,243 @@
-From Coq Require Import List.
-From Verif Require Import NdIndex C16Model.
-Theorem C16_placeholder : True. Proof. exact I. Qed.
+(* C16 -- Array-like objects have value semantics under structural operations.
+   Property theorems only; proofs are in Proofs/C16Proofs.v (faithful = spec,
+   naturality, index-array representation), Proofs/C16Layout.v (which
+   permutation each operation is) and Proofs/C16Findings.v (metadata, refuted
+   strata, read-only properties).
+
+   Objects are (shape, rows, metadata); a row is (value, improper flag), i.e.
+   one line of orix's widened `_data`.  `step_cls` is the FAITHFUL machine:
+   one Coq function per method of Object3d / Quaternion / Rotation /
+   Misorientation / Orientation / Vector3d / Miller as written in /repo (tied to
+   the source by the correspondence check on every run).  `step_spec` is the
+   SPECIFICATION: every structural operation acts on the rows exactly as on
+   an index array, element-wise operations map over rows, metadata is kept.
+   Everything is generic in the value type V and its unit/inverse/negation. *)
+From Coq Require Import ZArith List Bool Reals Permutation Sorted.
+From Verif Require Import Scalar RInst NdIndex C16Model C16Index C16Proofs C16Layout C16Shape C16Findings.
+Import ListNotations.
+
+(* ---- 1. the implementation's methods ARE the specification, for every class,
+   every operation, every shape/flags/metadata, outside the recorded findings
+   ([safe_step] is false exactly on: transpose of a >= 2-axis rotation-like
+   object with a set flag, unit of a rotation-like object with a set flag,
+   unit / minus of a misorientation or minus of a Miller with non-default
+   metadata, Miller.squeeze, and stacks containing such variants) *)
+Theorem C16_step_outside_findings : forall V (vf : vfuns V) c o (x : obj V),
+  wf c x = true -> safe_step c o x = true -> step_cls vf c o x = step_spec vf c o x.
+Proof. exact @step_faithful. Qed.
+Print Assumptions C16_step_outside_findings.
+
+(* ---- 2. ... hence for ALL finite programs whose run stays outside them
+   (induction over the operation list; the class invariant is preserved) *)
+Theorem C16_programs_outside_findings : forall V (vf : vfuns V) c p (x : obj V),
+  wf c x = true -> safe_run vf c p x = true ->
+  run (step_cls vf c) p x = run (step_spec vf c) p x.
+Proof. exact @run_faithful. Qed.
+Print Assumptions C16_programs_outside_findings.
+
+(* full strength (no side condition at all) for quaternions and vectors *)
+Theorem C16_quaternion_vector_programs : forall V (vf : vfuns V) c p (x : obj V),
+  (c = CQuat \/ c = CVec) -> wf c x = true ->
+  run (step_cls vf c) p x = run (step_spec vf c) p x.
+Proof. exact @run_faithful_plain. Qed.
+Print Assumptions C16_quaternion_vector_programs.
+
+(* ---- 3. structural programs permute the rows (value AND flag together)
+   exactly as they permute the index array 0..n-1, for every class, shape,
+   program; errors included (None = raises on both sides) *)
+Theorem C16_index_array : forall V (vf : vfuns V) c p s (rows : list (V * bool)),
+  Forall (fun e => e = EId) (flat_map op_eops p) ->
+  arun (sact vf c) (drow vf) p (s, rows)
+  = option_map (fun a => (fst a, gather (drow vf) rows (snd a)))
+               (arun act_idx (length rows) p (s, seq 0 (length rows))).
+Proof. exact @struct_index_array. Qed.
+Print Assumptions C16_index_array.
+
+(* the two combined -- the headline for the implementation's method table:
+   a structural program (getitem / reshape / flatten / transpose / squeeze, any
+   length) on an object of any class returns the rows gathered exactly as the
+   index array is, with the same metadata, or raises exactly when the
+   index-array run is an error -- whenever the run stays outside the findings *)
+Theorem C16_class_index_array : forall V (vf : vfuns V) c p (x : obj V),
+  wf c x = true -> safe_run vf c p x = true -> forallb is_struct p = true ->
+  run (step_cls vf c) p x
+  = option_map (fun a => mkObj (fst a) (gather (drow vf) (orows x) (snd a)) (ometa x))
+               (arun act_idx (length (orows x)) p (oshape x, seq 0 (length (orows x)))).
+Proof. exact @class_index_array. Qed.
+Print Assumptions C16_class_index_array.
+
+(* ---- 4. ... and with element-wise operations (unit, ~, -, stacks of them)
+   interleaved: every output element is ONE input element (read at the place
+   the index-array run says) with the element-wise history replayed on the
+   pair (value, flag) *)
+Theorem C16_representation : forall E (act : eop -> option (E -> E)) (d : E) p s l,
+  arun act d p (s, l)
+  = option_map (fun a => (fst a, map (interp act d l) (snd a)))
+               (arun (act_sym act) (length l, []) p (s, iota (length l))).
+Proof. exact @representation. Qed.
+Print Assumptions C16_representation.
+
+(* naturality: programs commute with any map of elements that commutes with
+   the element-wise operations used *)
+Theorem C16_naturality : forall E1 E2 (act1 : eop -> option (E1 -> E1)) (act2 : eop -> option (E2 -> E2))
+    (h : E1 -> E2) (d1 : E1) p s l,
+  Forall (compat act1 act2 h) (flat_map op_eops p) ->
+  arun act2 (h d1) p (s, map h l) = option_map (amap h) (arun act1 d1 p (s, l)).
+Proof. exact @arun_nat. Qed.
+Print Assumptions C16_naturality.
+
+(* ---- 5. which permutation: layouts for all shapes *)
+(* transpose: result[i'] = source[i], i'[j] = i[axes[j]], shape'[j] = shape[axes[j]] *)
+Theorem C16_transpose_layout : forall s axes idx,
+  perm_ok (length s) axes = true -> valid s idx ->
+  let idx' := map (fun a => nth a idx 0) axes in
+  valid (tr_shape s axes) idx' /\
+  nth (ravel (tr_shape s axes) idx') (idx_transpose s axes) 0 = ravel s idx.
+Proof. exact transpose_layout. Qed.
+Print Assumptions C16_transpose_layout.
+
+Theorem C16_transpose_is_permutation : forall s axes,
+  perm_ok (length s) axes = true -> Permutation (seq 0 (size s)) (idx_transpose s axes).
+Proof. exact transpose_permutation. Qed.
+Print Assumptions C16_transpose_is_permutation.
+
+(* flatten (= `.T` then C-order ravel, the code's formula) is Fortran order:
+   element (i0, i1, ...) lands at i0 + s0*(i1 + s1*(...)), the same rule for
+   every number of axes, size-1 and empty axes included; it moves every
+   element exactly once; and flatten o flatten = flatten *)
+Theorem C16_flatten_fortran_order : forall s idx,
+  valid s idx -> nth (ravelF s idx) (idx_flatten s) 0 = ravel s idx.
+Proof. exact flatten_layout. Qed.
+Print Assumptions C16_flatten_fortran_order.
+
+Theorem C16_flatten_is_permutation : forall s, Permutation (seq 0 (size s)) (idx_flatten s).
+Proof. exact flatten_permutation. Qed.
+Print Assumptions C16_flatten_is_permutation.
+
+Theorem C16_flatten_idempotent : forall E (act : eop -> option (E -> E)) (d : E) s l a1,
+  astep act d OFlatten (s, l) = Some a1 -> astep act d OFlatten a1 = Some a1.
+Proof. exact @flatten_idempotent. Qed.
+Print Assumptions C16_flatten_idempotent.
+
+(* indexing with ints/slices: C-order cartesian product of the per-axis selections *)
+Theorem C16_getitem_layout : forall s sels js,
+  length sels = length s -> valid (map (@length nat) sels) js ->
+  nth (ravel (map (@length nat) sels) js) (sel_positions s sels) 0 = ravel s (pick js sels).
+Proof. exact getitem_layout. Qed.
+Print Assumptions C16_getitem_layout.
+
+(* boolean masks / integer lists: whole sub-blocks, in the order of the
+   selected leading positions; a mask selects exactly its True bits in
+   increasing order *)
+Theorem C16_mask_layout : forall bs ps j r bits k,
+  (j < length ps -> r < bs -> nth (j * bs + r) (blocks bs ps) 0 = nth j ps 0 * bs + r)
+  /\ (forall p, In p (true_positions k bits) <-> (k <= p /\ nth (p - k) bits false = true))
+  /\ StronglySorted lt (true_positions k bits).
+Proof.
+  intros; split; [apply blocks_layout|split; [intros; apply true_positions_in|apply true_positions_sorted]].
+Qed.
+Print Assumptions C16_mask_layout.
+
+(* stack: operand j sits at index j of a new last axis *)
+Theorem C16_stack_layout : forall E (d : E) s (ls : list (list E)) idx j,
+  valid s idx -> j < length ls ->
+  nth (ravel (s ++ [length ls]) (idx ++ [j])) (stack_rows d (size s) ls) d
+  = nth (ravel s idx) (nth j ls []) d.
+Proof. exact @stack_layout. Qed.
+Print Assumptions C16_stack_layout.
+
+(* every operation returns a well-formed array: #rows = product of the shape
+   (all keys, reshape arguments incl. the unknown dimension, stacks), so the
+   invariant holds along every program *)
+Theorem C16_shape_consistent : forall V (vf : vfuns V) c p (x x' : obj V),
+  length (orows x) = size (oshape x) -> run (step_spec vf c) p x = Some x' ->
+  length (orows x') = size (oshape x').
+Proof. exact @run_spec_len_ok. Qed.
+Print Assumptions C16_shape_consistent.
+
+(* ---- 6. metadata: a program of single-object operations returns the assigned
+   symmetry / phase / coordinate format (the symmetry pair of a
+   misorientation swapped once per inversion) -- on the implementation's
+   method table, outside the findings *)
+Theorem C16_metadata_preserved : forall V (vf : vfuns V) c p (x x' : obj V),
+  wf c x = true -> safe_run vf c p x = true -> no_stack p = true ->
+  run (step_cls vf c) p x = Some x' ->
+  ometa x' = if (is_mis c && inv_parity p)%bool then meta_swap (ometa x) else ometa x.
+Proof. exact @metadata_preserved_faithful. Qed.
+Print Assumptions C16_metadata_preserved.
+
+(* ---- 7. the findings: the faithful machine violates the property here
+   (each witness is replayed on the implementation by the oracle and listed
+   in known_findings.d/C16.json); theorems 1, 2, 6 are the
+   `_outside_finding` companions *)
+Theorem C16_transpose_flags_refuted :
+  exists x, differs_in o_flags CRot (OTranspose None) x
+         /\ differs_in o_flags COri (OTranspose (Some [1; 0])) (mkObj (oshape x) (orows x) (mkMeta 0 5 0 0))
+         /\ differs_in o_flags CMis (OTranspose None) (mkObj (oshape x) (orows x) (mkMeta 3 5 0 0)).
+Proof. exact transpose_flags_refuted. Qed.
+Print Assumptions C16_transpose_flags_refuted.
+
+Theorem C16_unit_flags_refuted :
+  exists x, differs_in o_flags CRot (OEl EUnit) x
+         /\ differs_in o_flags COri (OEl EUnit) (mkObj (oshape x) (orows x) (mkMeta 0 5 0 0))
+         /\ differs_in o_flags CMis (OEl EUnit) (mkObj (oshape x) (orows x) (mkMeta 3 5 0 0)).
+Proof. exact unit_flags_refuted. Qed.
+Print Assumptions C16_unit_flags_refuted.
+
+Theorem C16_misorientation_unit_symmetry_refuted : exists x, differs_in ometa CMis (OEl EUnit) x.
+Proof. exact misorientation_unit_symmetry_refuted. Qed.
+Print Assumptions C16_misorientation_unit_symmetry_refuted.
+
+Theorem C16_misorientation_neg_symmetry_refuted : exists x, differs_in ometa CMis (OEl ENeg) x.
+Proof. exact misorientation_neg_symmetry_refuted. Qed.
+Print Assumptions C16_misorientation_neg_symmetry_refuted.
+
+Theorem C16_miller_neg_metadata_refuted : exists x, differs_in ometa CMil (OEl ENeg) x.
+Proof. exact miller_neg_metadata_refuted. Qed.
+Print Assumptions C16_miller_neg_metadata_refuted.
+
+Theorem C16_miller_squeeze_refuted :
+  exists x, wf CMil x = true /\ step_cls vfN CMil OSqueeze x = None
+            /\ exists z, step_spec vfN CMil OSqueeze x = Some z.
+Proof. exact miller_squeeze_refuted. Qed.
+Print Assumptions C16_miller_squeeze_refuted.
+
+(* ---- 8. read-only properties: Vector3d.azimuth writes into the object's data
+   (refuted over the reals: x = 1e-9 is replaced by 0); it does not when no
+   x/y component is a non-zero number within 1e-8 of 0; every other public
+   property is a pure function in the model (the harness deep-compares the
+   operands around every property read on the implementation) *)
+Theorem C16_azimuth_mutation_refuted : exists x : obj (list R), after_read ROps PAzimuth x <> x.
+Proof. exact azimuth_mutation_refuted. Qed.
+Print Assumptions C16_azimuth_mutation_refuted.
+
+Theorem C16_azimuth_outside_finding : forall T (O : Ops T) (x : obj (list T)),
+  Forall (fun r => az_fixed O (fst r)) (orows x) -> after_read O PAzimuth x = x.
+Proof. exact @azimuth_no_mutation_outside. Qed.
+Print Assumptions C16_azimuth_outside_finding.
+
+Theorem C16_other_properties_pure_partial : forall T (O : Ops T) (x : obj (list T)) i,
+  after_read O (PPure i) x = x.
+(* full statement: every public property other than azimuth leaves `_data`
+   bit-identical.  In the model this is true by construction (the model is
+   functional); what carries the clause is the oracle's deep comparison around
+   every property read of every class on the implementation. *)
+Proof. exact @pure_properties_no_mutation. Qed.
+Print Assumptions C16_other_properties_pure_partial.
+
+(* non-vacuity: a safe, well-formed, non-trivial instance of the hypotheses of
+   theorems 1, 2, 5, 6: a 2x3 misorientation with mixed flags and symmetry
+   (D6, Oh) through getitem / flatten / inverse / reshape / stack *)
+Example C16_nonvacuous :
+  let x := mkObj [2; 3] [(1, true); (2, false); (3, true); (4, false); (5, false); (6, true)]
+                 (mkMeta 3 5 0 0) in
+  let p := [OGet (KBasic [KSlice None None (Some (-1)%Z)]); OFlatten; OEl EInv;
+            OReshape [3%Z; (-1)%Z]; OStack [EId; EInv]] in
+  wf CMis x = true /\ safe_run vfN CMis p x = true
+  /\ (exists y, run (step_cls vfN CMis) p x = Some y /\ oshape y = [3; 2; 2])
+  /\ perm_ok 3 [2; 0; 1] = true /\ valid [2; 3; 4] [1; 2; 3].
+Proof.
+  repeat split; try (vm_compute; reflexivity).
+  - eexists; split; vm_compute; reflexivity.
+  - repeat constructor.
+Qed.
